@@ -205,7 +205,7 @@ pub fn policy_for(test: &Test, opt: &Opt, seed: u64, rng: &mut StdRng, expected_
                     kept.insert(pos, *j);
                 }
             }
-            if opt.layouts == LayoutMode::MaybeMissing && !must_supply.is_empty() && rng.gen_bool(0.12) {
+            if opt.layouts == LayoutMode::MaybeMissing && !must_supply.is_empty() && rng.gen_bool(0.3) {
                 let drop = *must_supply.choose(rng).unwrap();
                 kept.retain(|j| *j != drop);
             }
@@ -738,6 +738,14 @@ fn sched_run(prop: &str, run: usize, seed: u64) -> Vec<J> {
         }
         for (k, n) in names.into_iter().enumerate() {
             prog.insert(k, Stmt::Let { name: n, e: Expr::Num(g.rng.gen_range(0..4)) });
+        }
+        // every fourth test: one of those names is first assigned from itself, which IS a device read (so the test is
+        // not static after all)
+        if run % 4 == 2 {
+            let k = g.rng.gen_range(0..g.k.vars.len());
+            if let Stmt::Let { name, e } = &mut prog[k] {
+                *e = Expr::bin("+", Expr::Id(name.clone()), Expr::Num(1));
+            }
         }
     }
     let test = Test { header: plan.header.clone(), supplied: plan.supplied.clone(), prog };
